@@ -10,9 +10,9 @@ Hypotheses, beside the state invariant `WFB`:
 * `Safe b` (schema property, see Build/Inv.lean): no dictionary with non-nullable keys can receive
   `serialize_default` — for such schemas the statement is false as it stands (placeholder key 0, see
   `Props/C01.lean: dict_placeholder_unstable`).
-No hypothesis on the value: since repo fix eafdf15 a MAP builder refuses every raw key/value call stream
-(`SVal.mapRaw`, a malformed `SerializeMap` user) that does not alternate key, value, key, value … (the `key_pending`
-flag, `pushMapOps`), so a SUCCESSFUL push has kept keys and values in step (the former hypothesis `rawOK x` is gone).
+No hypothesis on the value: a MAP builder refuses every raw key/value call stream (`SVal.mapRaw`, a malformed
+`SerializeMap` user) that does not alternate key, value, key, value … (repo fix eafdf15: the `key_pending` flag,
+`pushMapOps`), so a SUCCESSFUL push has kept keys and values in step.
 -/
 namespace SaModel.Build
 open SaModel SaModel.Spec
